@@ -192,3 +192,27 @@ package stack
 //@   nobody
 //@ func (LinkEndpoint).LinkAddress props C07 C06 C12
 //@   nobody
+
+// ---------------------------------------------------------------------------
+// C09: the address check of a NIC. getRef hands out a network endpoint for dst only if dst
+// is registered on this NIC, or the NIC is promiscuous, or dst lies in one of its subnets;
+// and when neither of the latter two holds, the endpoint handed out is the registered one.
+// (Sequential reading: the NIC's lock protects these fields; concurrency is not decided.)
+//@ func (*referencedNetworkEndpoint).tryIncRef props C09
+//@   trusted
+//@   modifies r.refs
+
+//@ func (*NIC).addAddressLocked props C09
+//@   trusted
+//@   ensures implies(result2 == nil, result1 != nil)
+//@   modifies everything()
+
+//@ func (*NIC).getRef props C09
+//@   requires n != nil
+//@   requires forall(j, 0, len(n.subnets), tcpip.subnetOK(n.subnets[j]))
+//@   requires forallkey(k, n.endpoints, implies(has(n.endpoints, k), n.endpoints[k] != nil))
+//@   ensures implies(result != nil, old(has(n.endpoints, NetworkEndpointID{dst})) || old(n.promiscuous) || exists(j, 0, old(len(n.subnets)), old(tcpip.subnetHas(n.subnets[j], dst))))
+//@   ensures implies(result != nil && !old(n.promiscuous) && forall(j, 0, old(len(n.subnets)), !old(tcpip.subnetHas(n.subnets[j], dst))), result == old(n.endpoints[NetworkEndpointID{dst}]))
+//@   loop 1 invariant implies(!promiscuous, !n.promiscuous && forall(j, 0, rangeindex + 1, !tcpip.subnetHas(n.subnets[j], dst)))
+//@   loop 1 invariant implies(promiscuous, n.promiscuous || exists(j, 0, len(n.subnets), tcpip.subnetHas(n.subnets[j], dst)))
+//@   modifies everything()
